@@ -42,7 +42,7 @@ def gz_text(content):
 
 
 @st.composite
-def dir_items(draw, depth, full, gopher_ok, toplevel, max_items=5, kinds=None, longnames=False):
+def dir_items(draw, depth, full, gopher_ok, toplevel, max_items=5, kinds=None, longnames=False, encnames=True):
     """Returns list of (name, item) with item = dict(kind=..., ...)"""
     kinds = kinds or ["txt", "txt", "html", "bin", "dir", "dir", "map", "mbox", "maildir"] + (
         ["zip", "gz", "exec"] if full else [])
@@ -73,10 +73,11 @@ def dir_items(draw, depth, full, gopher_ok, toplevel, max_items=5, kinds=None, l
             }[shape] % title
             item = {"kind": "html", "title": title, "content": content}
         elif kind == "bin":
-            name = name.split(".")[0] + draw(st.sampled_from([".gif", ".dat", ".jpg"]))
+            # (with the shipped handler list also names whose last extension is an ENCODING of a typed file)
+            name = name.split(".")[0] + draw(st.sampled_from([".gif", ".dat", ".jpg"] + ([] if full or not encnames else [".txt.gz", ".svgz", ".tgz", ".txt.Z", ".html.gz"])))
             item = {"kind": "bin", "content": draw(gen.binary_content)}
         elif kind == "dir":
-            item = {"kind": "dir", "items": draw(dir_items(depth - 1, full, gopher_ok, False, 3, kinds, longnames))}
+            item = {"kind": "dir", "items": draw(dir_items(depth - 1, full, gopher_ok, False, 3, kinds, longnames, encnames))}
         elif kind == "map":
             # (names listed in a gophermap cannot contain TAB/CR/LF whatever the protocol: TAB separates its fields)
             item = {"kind": "map", "items": draw(dir_items(depth - 1, full, True, False, 3,
@@ -89,7 +90,8 @@ def dir_items(draw, depth, full, gopher_ok, toplevel, max_items=5, kinds=None, l
             item = {"kind": "maildir", "subjects": draw(st.lists(subject_st, min_size=1, max_size=1))}
         elif kind == "zip":
             name = name.split(".")[0] + ".zip"
-            item = {"kind": "zip", "items": draw(dir_items(1, False, gopher_ok, False, 3, ["txt", "bin", "dir", "html"]))}
+            # (archives exist with the full handler list only, where a '.gz' member goes through the decompressor)
+            item = {"kind": "zip", "items": draw(dir_items(1, False, gopher_ok, False, 3, ["txt", "bin", "dir", "html"], encnames=False))}
         elif kind == "gz":
             name = name.split(".")[0] + ".txt.gz"
             item = {"kind": "gz", "content": draw(gen.text_content)}
